@@ -81,6 +81,17 @@ def make_base(kind):
     return fn
 
 
+def make_base_switch():
+    def fn(ctx):
+        S1, S2 = ctx.var("S1", 1., 1000.), ctx.var("S2", 1., 1000.)
+        z, k, vn = ctx.var("z_ohm", 0.01, 50.), ctx.var("k_rx", 0.05, 0.9), ctx.var("vn_kv", 0.4, 400.)
+        a = c02.switch_two_port(ctx, S1, z, k, vn)
+        b = c02.switch_two_port(ctx, S2, z, k, vn)
+        for key in a:
+            ctx.eq(f"physical_admittance_independent_of_per_unit_base/{key}", a[key] * S1, b[key] * S2)
+    return fn
+
+
 def _pq_net():
     from . import c01
     return c01._net(True)
@@ -199,6 +210,7 @@ def instances(tier):
     out = [Inst("base_line", make_base("line"), nvars=24, samples=2, meta=dict(transformation="net.sn_mva", element="line")),
            Inst("base_impedance", make_base("impedance"), nvars=24, samples=2, meta=dict(transformation="net.sn_mva", element="impedance")),
            Inst("base_trafo_pi", make_base("trafo_pi"), nvars=30, samples=2, timeout_ms=60000, meta=dict(transformation="net.sn_mva", element="trafo pi")),
+           Inst("base_impedance_switch", make_base_switch(), nvars=20, samples=2, meta=dict(transformation="net.sn_mva", element="bus-bus switch with z_ohm")),
            Inst("base_pq_shunt", make_pq("base"), nvars=30, samples=2, raises=(), meta=dict(transformation="net.sn_mva", element="PQ elements, shunt, ward")),
            Inst("split_load", make_pq("split"), nvars=30, samples=2, meta=dict(transformation="split load")),
            Inst("out_of_service_load", make_pq("out_of_service"), nvars=30, samples=2, meta=dict(transformation="add out-of-service element")),
